@@ -281,7 +281,7 @@ func parent(prop string) {
 		"native workload controllers are reference models (trusted base), permissive about partial progress",
 		"safety mode: any controller may be woken at any time (spurious wake-ups are legal for level-triggered controllers), queue contents are not part of the state",
 	}
-	r.TrustedBase = []string{"API-server shim (generation, status subresource, finalizers, GC)", "CloneSet / Deployment / ReplicaSet reference models", "traffic oracle"}
+	r.TrustedBase = []string{"API-server shim (generation, status subresource, finalizers, GC)", "workload reference models (CloneSet incl. blue-green surge, Deployment + ReplicaSet, StatefulSet, Advanced DaemonSet)", "garbage-collector actor (owner references, finalizer-free deletion)", "traffic oracle"}
 	r.Finish()
 }
 
